@@ -354,8 +354,12 @@ theorem ref_case (fuel : Nat) (ih : Ref fuel) :
   cases items with
   | nil => simp only [execCase, specCase]; exact ⟨h, trivial⟩
   | cons it rest =>
-    obtain ⟨m, body, k⟩ := it
+    obtain ⟨m, e, body, k⟩ := it
     simp only [execCase, specCase]
+    split
+    · obtain ⟨st0, rfl⟩ := h
+      rw [expansionError_eq s st0]
+      exact ⟨⟨st0, rfl⟩, rfl⟩
     split
     · exact ih.case_ s s' rest false u h
     · have b1 := (bal fuel).list s body
